@@ -71,6 +71,13 @@ OpsTable == {
   Op("dictNestedAppend","D","mutates", FALSE, FALSE),  \* recv["a"]!.append(9)
   Op("dictKeys",      "D", "none",    FALSE, TRUE),
   Op("forEachKeyImpure","D","mutglobal", TRUE, FALSE), \* recv.forEachKey(fun (k) { <contract field> = 9; return true })
+  Op("swapOwnField",  "H", "mutates", FALSE, FALSE),   \* var t = 9; self.hn <-> t
+  Op("refFieldAssign","SS","mutates", FALSE, FALSE),   \* other.x = 1       inside a view method of S, other: auth(Mutate) &S
+  Op("refFieldSwap",  "SS","mutates", FALSE, FALSE),   \* var t = 9; other.x <-> t   (field through a reference)
+  Op("swapGlobal",    "N", "mutglobal", FALSE, FALSE), \* var t = 9; <contract field> <-> t
+  Op("swapLocal",     "N", "none",    FALSE, FALSE),   \* var a = 1; var t = 9; a <-> t
+  Op("assignCaptured","N", "none",    FALSE, FALSE),   \* var cv = 1; let g = view fun () { cv = 2 }; g()   (cv is local to the OUTER view call)
+  Op("swapCaptured",  "N", "none",    FALSE, FALSE),   \* var cv = 1; let g = view fun () { var t = 9; cv <-> t }; g()
   Op("assignGlobal",  "N", "mutglobal", FALSE, FALSE), \* <contract field> = 5
   Op("callImpureFree","N", "mutglobal", FALSE, TRUE),  \* bump()  (non-view contract function assigning a contract field)
   Op("emitStatement", "N", "emits",   FALSE, FALSE),   \* emit Ev()
@@ -123,6 +130,7 @@ Walk(st, p) == IF p = << >> THEN st ELSE Walk(StepP(st, Head(p)), Tail(p))
 NestedOps == {"fieldAppend", "fieldDictAppend", "dictNestedAppend"}
 AssignLike == {"indexAssign", "swapElem", "dictAssign"}
 RootsOf(o) == CASE o.tt = "N" -> {"none"} [] o.tt = "St" -> {"account"} [] o.tt = "H" -> {"self"}
+                [] o.tt = "SS" -> {"refparam"}
                 [] OTHER -> Roots \ {"account", "none"}
 \* element e applied in state st, for operation o; last = it is the final element
 ElemOK(o, st, e, last) ==
@@ -136,7 +144,7 @@ ElemsOK(o, st, p) == p = << >> \/ (ElemOK(o, st, Head(p), Len(p) = 1) /\ ElemsOK
 LastTransforming(p) == LET idx == {i \in 1..Len(p) : p[i] \notin NonTransforming} IN
                        IF idx = {} THEN "direct" ELSE p[CHOOSE i \in idx : \A j \in idx : j <= i]
 PathOK(o, root, p) ==
-  IF o.tt \in {"N", "St", "H"} THEN \A i \in 1..Len(p) : p[i] \in NonTransforming
+  IF o.tt \in {"N", "St", "H", "SS"} THEN \A i \in 1..Len(p) : p[i] \in NonTransforming
   ELSE /\ ElemsOK(o, Start(root), p)
        /\ (LastTransforming(p) = "force" => o.op \notin AssignLike)
        /\ (o.op \in NestedOps => ~Walk(Start(root), p).ref)
@@ -158,6 +166,34 @@ Table == {[op |-> o.op, tt |-> o.tt, root |-> r, path |-> PathName(p), site |-> 
             <<o, r, p, s>> \in {q \in OpsTable \X Roots \X Paths \X Sites :
                                   q[2] \in RootsOf(q[1]) /\ PathOK(q[1], q[2], q[3]) /\ SiteOK(q[1], q[2], q[3], q[4])}}
 
+\* ---------------------------------------------------------------- resource transfers (moves INTO a target)
+\* Only resources have the second value transfer of a variable declaration,  let old <- TARGET <- VALUE :
+\* TARGET's current value moves to `old`, VALUE moves into TARGET -- an assignment to TARGET. The swap
+\* statement  TARGET <-> t  assigns to both sides. In a view context neither `create` nor `destroy` is
+\* available, so VALUE comes from a resource parameter and `old` leaves through the return value (view
+\* method) or goes into another field of self (view initializer).
+\* The view context is a method / the initializer of resource Hold (fields coin: @Coin?, coins: @[Coin],
+\* bag: @{String: Coin}, spare: @Coin?); fields are only assignable inside their composite (C50), and a
+\* resource field read through a REFERENCE is itself a reference, not a target of a move: no reference paths.
+\* Same rule as for assignment: the transfer mutates a pre-existing value unless TARGET is local to the call;
+\* an initializer may write the fields of the value it constructs.
+XOps     == {"secondTransfer", "swapRes"}
+XTargets == {"selfField", "selfIndex", "selfDict", "ownedField", "localVar", "contractField", "contractHoldField"}
+XSites   == {"body", "init"}
+\* (inside the initializer a transfer / swap on a plain self FIELD counts as a second initialisation of that
+\*  field, which the language rejects independently of purity: not a program of the fragment)
+XOK(t, site) == site = "body" \/ t \in {"selfIndex", "selfDict", "contractField", "contractHoldField"}
+XEffect(t, site) ==
+  CASE t \in {"selfField", "selfIndex", "selfDict"} -> IF site = "init" THEN "none" ELSE "mutates"
+    [] t \in {"contractField", "contractHoldField"} -> "mutates"
+    [] t = "ownedField" -> "none"      \* ownership was moved into the call: no alias of the value survives outside
+    [] t = "localVar"   -> "none"
+XTable == {[op |-> o, tt |-> "RX", root |-> t, path |-> "direct", site |-> s, effect |-> XEffect(t, s)] :
+             <<o, t, s>> \in {q \in XOps \X XTargets \X XSites : XOK(q[2], q[3])}}
+\* law: only what the call owns (locals, moved-in parameters, the value under construction) is free to change
+ASSUME \A t \in XTargets, s \in XSites :
+         (XOK(t, s) /\ XEffect(t, s) = "none") => (t \in {"ownedField", "localVar"} \/ s = "init")
+
 \* ---------------------------------------------------------------- laws of the model
 \* an operation without an intrinsic effect never has one; copies and locals absorb mutation
 ASSUME \A o \in OpsTable, r \in Roots \ {"account", "none"}, p \in Paths : o.eff = "none" => Effect(o, r, p) = "none"
@@ -173,6 +209,7 @@ ASSUME \A o \in OpsTable, r \in Roots \ {"account", "none"}, p \in Paths :
 ASSUME \A o1 \in OpsTable, o2 \in OpsTable : o1.op = o2.op => o1 = o2
 
 ASSUME \A row \in Table : PrintT(ToJson(row))
+ASSUME \A xrow \in XTable : PrintT(ToJson(xrow))
 
 VARIABLE done
 Init == done = FALSE
